@@ -32,9 +32,10 @@ UNATTRIBUTED = {"ev.life", "ev.report", "ev.all"}
 
 TIERS = {
     "quick": dict(fixtures=["min", "comp", "ortho", "strat", "auto", "peers"], records=900, chunks=3,
-                  variants=["plain"], mc=["min", "comp"]),
+                  variants=["plain"], mc=["min", "comp"], systematic={"auto": 2, "ortho": 1}),
     "thorough": dict(fixtures=["min", "comp", "ortho", "strat", "auto", "peers", "oroot", "wide", "plan", "selpeers"],
-                     records=12000, chunks=12, variants=["plain", "asan", "dev"], mc=["min", "comp", "ortho", "oroot"]),
+                     records=12000, chunks=12, variants=["plain", "asan", "dev"], mc=["min", "comp", "ortho", "oroot"],
+                     systematic={"min": 12, "comp": 10, "ortho": 8, "strat": 6, "auto": 10, "peers": 6, "oroot": 8, "plan": 6}),
 }
 
 
@@ -99,6 +100,11 @@ def campaign(tier, seed=SEED, log=print):
                 if crash:
                     crashes.append(dict(file=f, rc=crash[0], stderr=crash[1][-1500:], records=n))
                 files.append(f)
+            if variant == "plain" and fxname in cfg.get("systematic", {}):
+                fs, n, crash = explore.exhaustive_walk(fx, exe, cdir, tier, cfg["systematic"][fxname], seed=seed, parts=8)
+                if crash:
+                    crashes.append(dict(file=fs[-1] if fs else "", rc=crash[0], stderr=crash[1][-1500:], records=n))
+                files += fs
             if variant == "plain":
                 for kind, fn in (("replica", explore.replica_walk), ("copy", explore.copy_walk)):
                     f = os.path.join(cdir, "%s-%s-%s.ndjson" % (fxname, variant, kind))
